@@ -166,6 +166,19 @@ def cell_programs(configs):
             for cfg in (base, le):
                 out.append(("cks-%d" % k, cells_cks(cfg, cksw, spell)))
                 k += 1
+    # the LONG spellings of the integer types (uint32 ... int64) for computed fields: the visitor keeps the spelling as
+    # written for the trailing-attribute form, so a generator that looks the raw spelling up behaves differently
+    k = 0
+    for w in ["uint8", "uint16", "uint32", "uint64", "int8", "int16", "int32", "int64"]:
+        for spell in ["inline", "prefixed"]:
+            out.append(("ckslong-%d" % k, cells_cks(le if k % 2 else base, w, spell)))
+            k += 1
+    k = 0
+    for lenw in ["uint8", "uint16", "uint32", "uint64"]:
+        for lenspell in ["inline", "prefixed"]:
+            for target in ["match", "object"]:
+                out.append(("lenlong-%d" % k, cells_small(le if k % 2 else base, lenw, lenspell, target)))
+                k += 1
     # checksum POSITION x nesting: first / middle / last field of a referenced packet, an inline object,
     # a match payload and a list element, all written after other bytes of the enclosing message
     for k, cfg in enumerate((base, le)):
@@ -422,4 +435,7 @@ def layout_programs():
     P.append(("det-nonroot-matches", "packet Frame {\n    u8 HK,\n    u8 BK,\n    u8 TK,\n    match HK as Hdr {\n        1 : HdrA,\n        2 : HdrB,\n    },\n    match BK as Body {\n        1 : BodyA,\n        2 : BodyB,\n    },\n    match TK as Trl {\n        1 : TrlA,\n    },\n}\npacket HdrA {\n    u8 a,\n}\npacket HdrB {\n    u16 b,\n}\npacket BodyA {\n    u32 c,\n}\npacket BodyB {\n    u64 d,\n}\npacket TrlA {\n    u8 e,\n}\nroot packet Msg {\n    Frame,\n    u8 x,\n}\n"))
     # identifiers that look like (non-keyword) type names or collide with table keys of a generator
     P.append(("det-type-like-names", "packet u128 {\n    u8 a,\n}\nroot packet Msg {\n    u8 k,\n    u24 {\n        u8 Hi,\n        u16 Lo,\n    },\n    repeat i24 {\n        u32 q,\n    },\n    u128,\n    u16 float32x,\n    string s,\n}\n"))
+    # a packet that itself has a match field and is reached from two different packets (as first match target and as
+    # object field): anything cached per packet during generation is keyed by WHO asked first
+    P.append(("det-shared-matching-payload", "packet NewOrder {\n    u32 qty,\n}\npacket Cancel {\n    u64 id,\n}\npacket Business {\n    u8 Kind,\n    match Kind as Detail {\n        1 : NewOrder,\n        2 : Cancel,\n    },\n}\npacket TcpFrame {\n    u8 T,\n    match T as Body {\n        1 : Business,\n    },\n}\npacket UdpFrame {\n    u8 U,\n    match U as Body {\n        1 : Business,\n    },\n    Business extra,\n}\nroot packet Wire {\n    TcpFrame,\n    UdpFrame,\n}\n"))
     return P
